@@ -270,7 +270,7 @@ func cmdCheck(args []string) int {
 	byBackend := map[string]int{}
 	solverTime := 0.0
 	slowestS, slowestName := 0.0, ""
-	var functions, notVerified, samples []string
+	var functions, notVerified, samples, unreached []string
 	assumptions := map[string]bool{}
 	violations := 0
 	knownHits := map[string]bool{}
@@ -386,6 +386,9 @@ func cmdCheck(args []string) int {
 			notVerified = append(notVerified, rep.Key+": "+strings.Join(rep.Unsupported, "; "))
 			total++
 			noteUndecided(rep.Key, "every path of the function stays inside the verified subset: "+strings.Join(rep.Unsupported, "; "))
+		}
+		for _, u := range rep.Unreached {
+			unreached = append(unreached, shortFunc(rep.Key)+": "+u)
 		}
 		for _, n := range rep.Intrinsics {
 			if d, ok := intrinsicDocs[n]; ok {
@@ -510,6 +513,7 @@ func cmdCheck(args []string) int {
 			"slowest_obligation":        slowestName,
 			"solver_timeout_s":          timeout,
 			"undecided":                 undecided,
+			"blocks_never_reached":      unreached,
 		}}
 	writeJSON(evPath, ev)
 	fmt.Printf("property %s: %d obligations, %d discharged, %d violations, %d undecided, %d known findings, %d functions (%d with unsupported paths), %.1fs\n",
